@@ -469,7 +469,11 @@ messageTypeSwitching:
 func (m *MTProto) tryToProcessErr(e *ErrResponseCode) error {
 	switch e.Message {
 	case "PHONE_MIGRATE_X":
-		newIP, found := m.dclist[e.AdditionalInfo.(int)]
+		dcID, ok := e.AdditionalInfo.(int)
+		if !ok {
+			return e // text is literally PHONE_MIGRATE_X, there is no data center id in it
+		}
+		newIP, found := m.dclist[dcID]
 		if !found {
 			return errors.Wrapf(e, "DC with id %v not found", e.AdditionalInfo)
 		}
